@@ -4,6 +4,7 @@ import (
 	"time"
 
 	"github.com/vx-labs/wasp/v4/wasp/distributed"
+	"github.com/vx-labs/wasp/v4/wasp/sessions"
 )
 
 type NodeMemberManager interface {
@@ -28,11 +29,14 @@ func NewNodeMemberManager(id uint64, log messageLog, state distributed.State) No
 func (n *nodeMemberManager) NotifyGossipJoin(id uint64) {}
 func (n *nodeMemberManager) NotifyGossipLeave(id uint64) {
 	n.state.Subscriptions().DeletePeer(id)
-	sessions := n.state.SessionMetadatas().ByPeer(id)
-	for _, session := range sessions {
-		lwt := session.LWT
-		if lwt != nil {
-			n.log.Append(lwt)
+	lost := n.state.SessionMetadatas().ByPeer(id)
+	for _, session := range lost {
+		if session.LWT != nil {
+			// the stored will carries the topic as the client named it: publish it inside the
+			// session's mount point, like every other message of that session
+			lwt := *session.LWT
+			lwt.Topic = sessions.PrefixMountPoint(session.MountPoint, session.LWT.Topic)
+			n.log.Append(&lwt)
 		}
 	}
 	go func() {
